@@ -372,6 +372,8 @@ pub fn run_sim(cfg: SimCfg, scratch: &Path, wall_limit_s: u64) -> Outcome {
     let rt = tokio::runtime::Builder::new_current_thread().enable_time().start_paused(true).build().unwrap();
     let local = tokio::task::LocalSet::new();
     let wall0 = std::time::Instant::now();
+    // an interpreter is 10^3..10^4 times slower: the wall-clock watchdog (never a verdict) scales
+    let wall_limit_s = if cfg!(miri) { wall_limit_s * 40 } else { wall_limit_s };
     let torrent = cfg.torrent.clone();
     let metainfo = torrent.metainfo();
     let max_ms = cfg.max_virtual_ms;
